@@ -75,6 +75,8 @@ func Verif_C05_handlers_preserve_backing() {
 	}
 	verifC05State(k, ctx, verif_choice("npools", np)+1)
 	supply := W.bank.GetSupply(ctx, vDenom)
+	// any bank transfer of the handler may fail (locked coins of a vesting sender, blocked recipient, ...): symbolic fault per call
+	W.bank.faults = true
 	ms := NewMsgServerImpl(k)
 	g := sdk.WrapSDKContext(ctx)
 	amount := verif_int_range("amount", "0", vMaxAmt)
@@ -101,6 +103,7 @@ func Verif_C05_handlers_preserve_backing() {
 	case 6:
 		_, err = ms.MoveAvailableVestingByDenoms(g, &types.MsgMoveAvailableVestingByDenoms{FromAddress: vVester, ToAddress: to, Denoms: []string{vDenom}})
 	}
+	W.bank.faults = false
 	verifC05Check(k, ctx, supply)
 	if err == nil {
 		verif_reach("handler succeeded")
